@@ -275,6 +275,10 @@ func c16R5(c *Ctx, r *Report, rule string) {
 			}
 			guarded := false
 			for _, a := range p.Assume {
+				// the same test written on the string itself
+				if nn := strings.NewReplacer(" ", "").Replace(a); strings.Contains(a, key) && (strings.HasSuffix(nn, `!="")=true`) || strings.HasSuffix(nn, `=="")=false`) || strings.HasPrefix(nn, `(""!=`) && strings.HasSuffix(nn, ")=true") || strings.HasPrefix(nn, `(""==`) && strings.HasSuffix(nn, ")=false")) {
+					guarded = true
+				}
 				if !strings.Contains(a, "len("+key+")") {
 					continue
 				}
